@@ -35,12 +35,18 @@ def plan(tier):
 
 @st.composite
 def solver_spec(draw):
-    recipe = draw(gen.problem_recipe())
+    # "arbitrary problems": mostly N=1..5, sometimes 6 or 7 (Rastrigin and XSquared ship in any dimension)
+    recipe = draw(gen.problem_recipe(dims=(1, 2, 3, 4, 5, 1, 2, 3, 4, 5, 6, 7)))
     if draw(st.integers(0, 4)) == 0:
         return {"recipe": recipe, "params": None}
-    params = {"r": draw(gen.r_values), "eps": draw(gen.eps_values(recipe["n"], 10, cheap=False)),
+    params = {"r": draw(gen.r_values), "eps": draw(gen.eps_values(min(recipe["n"], 5), 10, cheap=False)),
               "itersLimit": draw(st.sampled_from([1, 2, 5, 20, 40, 40]))}
-    return {"recipe": recipe, "params": params}
+    spec = {"recipe": recipe, "params": params}
+    if draw(st.integers(0, 3)) == 0:
+        # one SolverParameters object handed to several solvers: this solver re-uses the object (and therefore
+        # the values) of the live solver with this index, if there is one with explicit parameters
+        spec["share"] = draw(st.integers(0, 3))
+    return spec
 
 
 def solo_reference(spec):
@@ -61,10 +67,10 @@ def solo_reference(spec):
 
 
 class Live:
-    def __init__(self, spec):
+    def __init__(self, spec, sp_obj=None):
         self.spec = spec
         self.T, self.nstar = solo_reference(spec)
-        self.run = Run(spec["recipe"], spec["params"], default_params=spec["params"] is None)
+        self.run = Run(spec["recipe"], spec["params"], default_params=spec["params"] is None, sp_obj=sp_obj)
         self.steps = 0
         self.solutions = []      # Solution objects handed out
         self.dead = False        # hit float resolution: no further operations
@@ -112,8 +118,18 @@ class IsolationMachine(MachineMixin, RuleBasedStateMachine):
         self.step(self._new, spec)
 
     def _new(self, spec):
-        self.live.append(Live(spec))
+        sp_obj = None
+        if spec.get("share") is not None and spec["params"] is not None and self.live:
+            donor = self.live[spec["share"] % len(self.live)]
+            if donor.spec["params"] is not None:
+                # same object, hence the same values (density is 10 for every C12 recipe)
+                spec = dict(spec, params=dict(donor.spec["params"]))
+                sp_obj = donor.run.sp
+                self.cls.add("shared-parameters-object")
+        self.live.append(Live(spec, sp_obj))
         self._foreign(len(self.live) - 1)
+        if spec["recipe"]["n"] >= 6:
+            self.cls.add("N>=6")
         if spec["params"] is None:
             self.cls.add("default-parameters")
         self._check_all("creating solver %d" % (len(self.live) - 1))
